@@ -36,6 +36,11 @@ PROP = {
          "tests": [("TestVFC14ConfigWrite", (40, 120)), ("TestVFC14ConfigUpgrade", (60, 150)),
                    ("TestVFC14ConfigConcurrent", (30, 150))],
          "plain": ["TestVFC14ConfigSyscalls"]},
+        # the process runs into its file-size limit during one save (the limit is in force for that call only, but for
+        # the whole process: a process of its own)
+        {"name": "config_nospace", "pkg": "internal/home",
+         "files": ["home/common_assembly_test.go", "home/c14_config_test.go", "home/c14_nospace_test.go"],
+         "tests": [("TestVFC14ConfigNoSpace", (40, 160))]},
     ],
     "shards": (1, 16),
     "workers": (4, 16),
